@@ -30,7 +30,7 @@ RULE = (
 SCOPE = {"quick": {"GP": 5, "GU": 7, "NR": 9000}, "thorough": {"GP": 7, "GU": 10, "NR": 40000}}
 EXHAUSTIVE_SCOPE = {t: f"pairs: genome {s['GP']}, <=2 blocks, 3 strands; unary: genome {s['GU']}, <=3 blocks" for t, s in SCOPE.items()}
 FLOOR = {"quick": 20000, "thorough": 100000}
-REQUIRED_MONITORS = ["inv.wellformed", "inv.span", "inv.normalised", "inv.no-empty-block", "set.has_overlap", "set.intersection", "set.union",
+REQUIRED_MONITORS = ["inv.wellformed", "inv.span", "inv.normalised", "inv.no-empty-block", "inv.result-as-literal", "set.has_overlap", "set.intersection", "set.union",
                      "set.union_preserve", "set.minus", "set.contains", "set.gaps", "set.merge", "set.optimize", "set.extend",
                      "set.reverse", "set.shift", "set.strand-ops", "set.distance", "set.parent-flags",
                      "ambient.inv.wellformed", "ambient.set.intersection"]
